@@ -508,6 +508,8 @@ func main() {
 		for _, l := range lines {
 			if strings.HasPrefix(l, "rcase") {
 				doRouterCase(run, l)
+			} else if strings.HasPrefix(l, "ncase") {
+				doNcvCase(run, l)
 			} else {
 				doCase(run, l)
 			}
@@ -516,6 +518,10 @@ func main() {
 	}
 	if *mode == "router" {
 		genRouter(run)
+		return
+	}
+	if *mode == "ncv" {
+		genNcv(run)
 		return
 	}
 	// a fixed directed set first, then seeded variations
